@@ -32,6 +32,8 @@ import (
 	"sync"
 	"time"
 
+	"github.com/mutagen-io/mutagen/pkg/synchronization/core"
+
 	"verifharness/internal/hx"
 )
 
@@ -40,6 +42,9 @@ const header = "From Coq Require Import List String.\nImport ListNotations.\nOpe
 // Case is the replay form of one case.
 type Case struct {
 	Script *Script `json:"script"`
+	// Props restricts a corpus case to some properties (empty: all whose
+	// profile fits: C18 needs a non-preserving side, the others need none).
+	Props []string `json:"props,omitempty"`
 }
 
 type childResult struct {
@@ -67,8 +72,11 @@ func summarize(env *environment) childResult {
 	if env.script.N != "" {
 		tags["nonpreserving:"+env.script.N] = true
 	}
-	transitions, fresh, failed := 0, 0, 0
+	transitions, fresh, failed, quiet := 0, 0, 0, 0
 	for i, c := range env.cycles {
+		if i > 0 && quiescent(env.cycles[i-1], c) {
+			quiet++
+		}
 		if c.haveTa || c.haveTb {
 			transitions++
 		}
@@ -91,6 +99,9 @@ func summarize(env *environment) childResult {
 	if failed > 0 {
 		tags["cycle:flush-failed"] = true
 	}
+	if quiet > 0 {
+		tags["cycle:quiescent-step"] = true
+	}
 	tags[fmt.Sprintf("cycles:%d", len(env.cycles)/3*3)] = true
 	var tl []string
 	for k := range tags {
@@ -98,6 +109,25 @@ func summarize(env *environment) childResult {
 	}
 	sort.Strings(tl)
 	return childResult{Coq: env.coqHist(), Tags: tl, Nontrivial: transitions > 0 && len(env.cycles) >= 3}
+}
+
+// quiescent mirrors Model/CheckHistory.v:quiet (used for the distribution
+// only): the earlier cycle completed with every transition reported as
+// applied exactly, and the walks show no edit before the later one.
+func quiescent(c1, c2 *cycleRec) bool {
+	ideal := func(have bool, ts []*core.Change, haveR bool, rs []*core.Entry) bool {
+		if have != haveR || len(ts) != len(rs) {
+			return false
+		}
+		for i := range ts {
+			if !ts[i].New.Equal(rs[i], true) {
+				return false
+			}
+		}
+		return true
+	}
+	return c1.ok && ideal(c1.haveTa, c1.ta, c1.haveRa, c1.ra) && ideal(c1.haveTb, c1.tb, c1.haveRb, c1.rb) &&
+		c1.wa.Equal(c2.wa0, true) && c1.wb.Equal(c2.wb0, true)
 }
 
 // runChild runs one history in a child process: a panic in a goroutine of the
@@ -241,13 +271,23 @@ func main() {
 	t0 := time.Now()
 	for _, raw := range hx.LoadCorpus(cfg.Corpus) {
 		var c Case
-		if json.Unmarshal(raw, &c) == nil && c.Script != nil && len(c.Script.Ops) > 0 {
+		if json.Unmarshal(raw, &c) != nil || c.Script == nil || len(c.Script.Ops) == 0 {
+			continue
+		}
+		fits := (*prop == "C18") == (c.Script.N != "")
+		if len(c.Props) > 0 {
+			fits = false
+			for _, p := range c.Props {
+				fits = fits || p == *prop
+			}
+		}
+		if fits {
 			addHistory(c.Script, "corpus")
 		}
 	}
-	nRandom, nDirected := 40, 4
+	nRandom, nDirected := 60, 4
 	if cfg.Thorough() {
-		nRandom, nDirected = 1200, 60
+		nRandom, nDirected = 600, 30
 	}
 	if *nOverride > 0 {
 		nRandom = *nOverride
